@@ -32,7 +32,8 @@ LEVEL_TEXT = ("Exploration with exhaustive pockets: every (tree, node) pair and,
               " Generated trees come in several representations of the same values (strided, other dtypes / lists, one array as two columns, read-only where the harness never writes) and half of them were queried, a third put through aborted operations, before use. Cut transforms are also re-used after a call that the caller's callback aborted."
               " Operations on trees the library derived from used ones; threshold 0 against zero-length tip branches and thresholds ulps below exact lengths."
               " Neurite generators consumed one by one with extractions in the loop body; the C03 contract set (incl. re-verification of earlier results) is active."
-              " Twins under custom column names; a 64-bit label column; the older to_sub_tree entry point.")
+              " Twins under custom column names; a 64-bit label column; the older to_sub_tree entry point."
+              " cut_tree callbacks keep the node handles they are given and read them after the call.")
 LEVEL_NOTE = ("Encodes my reading of the documented cut rules (DESIGN.md C06); near-threshold "
               "tip-branch lengths (within float32 rounding of the threshold) are classified "
               "inconclusive, exact ties are decided on integer-length geometry.")
